@@ -34,7 +34,7 @@ MANIFEST = dict(
          'hand models Fmt/LongString.v, Fmt/FgdBin.v, SM/LazyDb.v (tied by correspondence), CPython.',
 )
 
-IMPORTS = ['Coq.NArith.NArith', 'Coq.Lists.List', 'Coq.Strings.String', 'Coq.Bool.Bool', 'Coq.Arith.Arith', 'SV.Fmt.LongString', 'SV.Fmt.FgdBin', 'SV.SM.LazyDb',
+IMPORTS = ['Coq.NArith.NArith', 'Coq.Lists.List', 'Coq.Strings.String', 'Coq.Bool.Bool', 'Coq.Arith.Arith', 'SV.Fmt.LongString', 'SV.Fmt.FgdBin', 'SV.Fmt.FgdBinEnt', 'SV.SM.LazyDb',
            'SV.Gen.FgdConsts_gen', 'SV.Props.C16']
 PRE = '''Import ListNotations. Open Scope bool_scope. Open Scope N_scope. Open Scope list_scope.
 Fixpoint bad_idx {A} (f : A -> bool) (n : N) (l : list A) : list N :=
@@ -163,7 +163,7 @@ def shrink_text(pred: Callable[[str], bool], s: str, budget: int = 400) -> str:
 # =============================================================================================== correspondence
 def corr_writer_reader(ck: Ck) -> None:
     rng = ck.rng
-    n_long, n_short = ck.budget(22, 120), ck.budget(260, 1500)
+    n_long, n_short = ck.budget(14, 120), ck.budget(160, 1500)
     corpus = [(True, '\t', ''), (False, '\t', ''), (True, '\t', 'q' * 999 + '"zz'), (False, '\t\t', 'q' * 999 + '\nzz'),
               (True, '\t', 'q' * 998 + '\\' + 'z'), (True, '', 'a b ' * 300), (True, '\t', ('w' * 130 + '\n') * 9),
               (False, '\t', 'x' * 1001), (True, '\t', 'x' * 1000), (True, '\t', ' ' + 'y' * 1500)]
@@ -200,26 +200,24 @@ def corr_writer_reader(ck: Ck) -> None:
             coq_bool(ext), coq_str(indent), coq_str(text), coq_str(out), coq_str(tail),
             'None' if back is None else ('Some [1114112]%N' if back == text else f'Some {coq_str(back)}'))
             for ext, indent, text, out, tail, back in part)
+        # one pass per case: 1 = writer disagrees, 2 = reader disagrees (exact agreement, except that when the
+        # implementation raises the model may have stopped early: 4 = such a case, counted, not compared)
         vals = ck.coq_eval(IMPORTS, [
-            'bad_idx (fun c : (bool * list N) * (list N * list N) * (list N * option (list N)) => '
+            'map (fun c : (bool * list N) * (list N * list N) * (list N * option (list N)) => '
             'let \'((ext, ind), (text, out), (tail, back)) := c in '
-            'nlist_eqb (write_longstring esc_pairs esc_excluded gen_cfg ext ind text) out) 0 cases',
-            # reader: exact agreement, except that when the implementation raises the model may have stopped early
-            'bad_idx (fun c : (bool * list N) * (list N * list N) * (list N * option (list N)) => '
-            'let \'((ext, ind), (text, out), (tail, back)) := c in '
-            'match out, back with [], _ => true | _, Some bk => opt_eqb (read_joined esc_pairs (out ++ tail)) '
-            '(Some (if nlist_eqb bk [1114112] then text else bk)) | _, None => true end) 0 cases',
-            'bad_idx (fun c : (bool * list N) * (list N * list N) * (list N * option (list N)) => '
-            'let \'((ext, ind), (text, out), (tail, back)) := c in '
-            'match out, back with [], _ => true | _, Some _ => true | _, None => match read_joined esc_pairs (out ++ tail) with None => true | Some _ => false end end) 0 cases',
+            '(if nlist_eqb (write_longstring esc_pairs esc_excluded gen_cfg ext ind text) out then 0 else 1) + '
+            'match out with [] => 0 | _ => let r := read_joined esc_pairs (out ++ tail) in match back with '
+            '| Some bk => if opt_eqb r (Some (if nlist_eqb bk [1114112] then text else bk)) then 0 else 2 '
+            '| None => match r with None => 0 | Some _ => 4 end end end) cases',
         ], name='longstring', preamble=PRE + f'Definition cases := {lit}.\n', timeout=900)
         if vals is None:
             ck.obligation('correspondence:write_longstring', False, 'model could not be evaluated')
             ck.tie_broken.append('correspondence _write_longstring: model evaluation failed')
             return
-        bad_w += [lo + i for i in parse_coq_N_list(vals[0])]
-        bad_r += [lo + i for i in parse_coq_N_list(vals[1])]
-        relaxed += len(parse_coq_N_list(vals[2]))
+        codes = parse_coq_N_list(vals[0])
+        bad_w += [lo + i for i, c in enumerate(codes) if c & 1]
+        bad_r += [lo + i for i, c in enumerate(codes) if c & 2]
+        relaxed += sum(1 for c in codes if c & 4)
         lo = hi
     ck.obligation('correspondence:write_longstring', not bad_w,
                   f'{len(rows)} texts (around multiples of LIMIT, long runs without spaces, escapes at the cut): '
@@ -332,7 +330,7 @@ def corr_strdict(ck: Ck) -> None:
     from srctools import _engine_db as E
     rng = ck.rng
     rows = []
-    for _ in range(ck.budget(120, 400)):
+    for _ in range(ck.budget(60, 400)):
         nb = rng.choice([0, 1, 3, 8, E.SHARED_STRINGS, E.SHARED_STRINGS])
         base_set = rng.sample(range(1000, 1000 + 2 * max(nb, 4)), nb)
         own_set = rng.sample(range(5000, 5040), rng.randint(0, 12))
@@ -391,6 +389,157 @@ def corr_strdict(ck: Ck) -> None:
         ck.tie_broken.append('correspondence BinStrDict (Fmt/FgdBin.v vs _engine_db.BinStrDict)')
         b, o, _, _, s, idx, dec = rows[bad[0]]
         ck.extra['strdict_disagreement'] = {'base_n': len(b), 'own': o, 'string': s, 'impl_index': idx, 'impl_decoded': dec}
+
+
+# ----------------------------------------------------------------------------------------------- binary records
+def coq_qs(x: str) -> str:
+    return '"%s"%%string' % x
+
+
+def ent_literal(e: Any, sid: Callable[[str], int]) -> str:
+    """An EntityDef as a Coq `entdef N` (Fmt/FgdBinEnt.v); strings are numbered by `sid`.  What the binary format
+    does not carry is left out; a keyvalue/IO name with several tag variants cannot be written at all."""
+    from srctools.fgd import ValueTypes
+    kvs = []
+    for tm in e.keyvalues.values():
+        for kv in tm.values():
+            if kv.type is ValueTypes.SPAWNFLAGS:
+                fl = coq_list('(%d, %d, %s)' % (m, sid(n), coq_bool(bool(d))) for m, n, d, _ in (kv.val_list or []))
+                dflt = sid('')
+            else:
+                fl, dflt = '[]', sid(kv.default or '')
+            kvs.append('mk_kv %d %d %s %s %d %s' % (sid(kv.name), sid(kv.disp_name), coq_qs(kv.type.name), coq_bool(kv.readonly), dflt, fl))
+    ios = {}
+    for cat in ('inputs', 'outputs'):
+        ios[cat] = ['mk_io %d %s' % (sid(v.name), coq_qs(v.type.name)) for tm in getattr(e, cat).values() for v in tm.values()]
+    res = ['mk_res %d %s %s' % (sid(r.filename), coq_qs(r.type.name), coq_list(str(sid(t)) for t in r.tags)) for r in e.resources]
+    bases = [str(sid(b if isinstance(b, str) else b.classname)) for b in e.bases]
+    return 'mk_ent %s %s %s %s %s %s %s' % (coq_qs('TYPE_' + e.type.name), coq_bool(e.is_alias), coq_list(bases),
+                                            coq_list(kvs), coq_list(ios['inputs']), coq_list(ios['outputs']), coq_list(res))
+
+
+def gen_bin_ent(rng: random.Random, i: int) -> Any:
+    """An engine-style definition (untagged keyvalues/IO, no CHOICES): what ent_serialise accepts."""
+    from srctools.const import FileType
+    from srctools.fgd import EntityDef, EntityTypes, IODef, KVDef, Resource, ValueTypes
+    e = EntityDef(rng.choice(list(EntityTypes)), f'gen_{i}', is_alias=rng.random() < 0.2)
+    e.bases = rng.sample(['_CBaseEntity_', 'prop_static', 'Other'], rng.choice([1, 1, 2])) if rng.random() < 0.4 else []
+    for name in rng.sample(KV_NAMES, rng.randint(0, 6)):
+        typ = rng.choice([t for t in ValueTypes if t is not ValueTypes.CHOICES])
+        if typ is ValueTypes.SPAWNFLAGS:
+            vl = [(1 << p, f'flag {p}', rng.random() < 0.5, frozenset()) for p in sorted(rng.sample(range(0, 31), rng.randint(0, 6)))]
+            kv = KVDef(name, typ, name, '', '', vl)
+        else:
+            kv = KVDef(name, typ, rng.choice(['', 'Disp', name]), rng.choice(DEFAULTS), '', readonly=rng.random() < 0.3)
+        e.keyvalues[name.casefold()] = {frozenset(): kv}
+    for cat in ('inputs', 'outputs'):
+        for j in range(rng.randint(0, 3)):
+            getattr(e, cat)[f'io{j}'] = {frozenset(): IODef(f'Io{j}', rng.choice([t for t in ValueTypes if not t.has_list]))}
+    if rng.random() < 0.5:
+        e.resources = [Resource(f'res{j}', rng.choice(list(FileType)), rng.choice([frozenset(), frozenset({'A'}), frozenset({'A', 'B'})]))
+                       for j in range(rng.randint(1, 3))]
+    return e
+
+
+BIN_PRE = '''Definition ent_case (c : entdef N * list N * entdef N * (list N * N)) : bool :=
+  let '(lit, bytes, back, (canon, empty)) := c in
+  match g_ent_ser lit with Some b => nlist_eqb b bytes | None => false end
+  && match g_ent_unser canon empty bytes with Some (x, []) => entN_eqb x back | _ => false end.
+Definition block_case (own : list N) (empty : N) (c : list (entdef N) * list N) : bool :=
+  let '(lits, bytes) := c in
+  match g_block_unser (base_canon ++ own) empty (List.length lits) bytes with
+  | Some (xs, []) => list_eqb entN_eqb xs lits && match g_block_ser xs with Some b => nlist_eqb b bytes | None => false end
+  | _ => false end.
+'''
+
+
+def corr_binary_records(ck: Ck, data: bytes, tb: dict) -> None:
+    """Byte-exact: (1) generated definitions through the real ent_serialise / ent_unserialise with a table dictionary vs
+    ent_ser / ent_unser of Fmt/FgdBinEnt.v; (2) blocks of the shipped file: the model reads the block's bytes (after the
+    dictionary) to exactly the definitions the implementation reads, nothing left over, and writes them back to the same bytes."""
+    from srctools import _engine_db as E
+    rng = ck.rng
+    rows = []
+    for i in range(ck.budget(50, 600)):
+        e = gen_bin_ent(rng, i)
+        table: list[str] = ['']
+
+        def enc(s: str, table=table) -> bytes:
+            if s not in table:
+                table.append(s)
+            return E._fmt_16bit.pack(table.index(s))
+        b = io.BytesIO()
+        try:
+            E.ent_serialise(e, b, enc)
+        except Exception as ex:   # noqa: BLE001
+            ck.violation('binary-serialise-raises', f'ent_serialise(generated definition) raises {type(ex).__name__}: {ex}', {'kind': 'binary'})
+            continue
+        raw = b.getvalue()
+        b.seek(0)
+        e2 = E.ent_unserialise(b, e.classname, E._py_make_lookup(b, table))
+        sid = table.index
+        rows.append((ent_literal(e, sid), raw, ent_literal(e2, sid), len(table)))
+        ck.count('corr_binary_records')
+        ck.hist('bin_record_bytes', min(len(raw) // 20 * 20, 200))
+        if len(raw) > 12:
+            ck.seen(('binrec', raw))
+    exprs = ['bad_idx ent_case 0 ' + coq_list('(%s, %s, %s, (map N.of_nat (seq 0 %d), 0))' % (a, coq_N(raw), c, n) for a, raw, c, n in rows)]
+    # ---- blocks of the shipped file
+    db = fresh_db(data)
+    base = list(db.base_strings)
+    first_base: dict[str, int] = {}
+    for i, x in enumerate(base):
+        first_base.setdefault(x, i)
+    nblocks = len(db.unparsed)
+    block_of = {c: i for i, ids in enumerate(tb['blocks']) for c in ids}
+    with_alias = sorted({block_of[a] for a in tb['bases']})       # blocks holding definitions with stored base names
+    nsel = ck.budget(6, nblocks)
+    chosen = sorted(set(rng.sample(range(nblocks), min(nblocks, nsel))) | set(with_alias if nsel >= nblocks else with_alias[:3]))
+    brow = []
+    for bi in chosen:
+        classes, blob = db.unparsed[bi]
+        f = io.BytesIO(blob)
+        inv_list, from_dict = E.BinStrDict.unserialise(f, base)
+        start = f.tell()
+        ents = [E.ent_unserialise(f, cn, from_dict) for cn in classes]
+        first = dict(first_base)
+        for i, x in enumerate(inv_list):
+            first.setdefault(x, len(base) + i)
+        sid = lambda x, first=first: first.get(x, 65535)   # noqa: E731
+        own = [first[x] for x in inv_list]
+        brow.append((bi, own, sid(''), [ent_literal(e, sid) for e in ents], blob[start:]))
+        ck.count('corr_binary_blocks')
+        ck.count('corr_binary_block_entities', len(ents))
+        ck.seen(('binblock', bi, len(blob)))
+    pre = PRE + 'Definition base_canon : list N := %s.\n' % coq_N([first_base[x] for x in base]) + BIN_PRE
+    vals: list[str] = []
+    for lo in range(0, max(len(brow), 1), 25):     # <= 25 blocks (about 70 kB of bytes) per Coq file
+        part = (exprs if lo == 0 else []) + ['block_case %s %d (%s, %s)' % (coq_N(own), emp, coq_list(lits), coq_N(raw))
+                                             for bi, own, emp, lits, raw in brow[lo:lo + 25]]
+        got = ck.coq_eval(IMPORTS, part, name='binrec', preamble=pre, timeout=900)
+        if got is None:
+            ck.obligation('correspondence:binary_records', False, 'model could not be evaluated')
+            ck.tie_broken.append('correspondence binary records: model evaluation failed')
+            return
+        vals += got
+    bad = parse_coq_N_list(vals[0])
+    badb = [brow[i][0] for i, v in enumerate(vals[1:]) if v != 'true']
+    ck.obligation('correspondence:binary_records', not bad,
+                  f'{len(rows)} generated definitions: bytes written by ent_serialise == ent_ser of the model, and ent_unser of those '
+                  f'bytes == what ent_unserialise returns with nothing left over: {len(bad)} disagreements')
+    ck.obligation('correspondence:binary_blocks', not badb,
+                  f'{len(brow)} of {nblocks} blocks of the shipped database ({sum(len(r[3]) for r in brow)} definitions): block_unser of the '
+                  f'bytes after the dictionary == the definitions ent_unserialise returns, no byte left, and block_ser writes the same '
+                  f'bytes back: {len(badb)} disagreements' + (f' (blocks {badb[:5]})' if badb else ''))
+    if bad:
+        ck.tie_broken.append('correspondence binary records (Fmt/FgdBinEnt.v vs _engine_db.ent_serialise/ent_unserialise)')
+        ck.extra['binary_record_disagreement'] = {'literal': rows[bad[0]][0], 'bytes': list(rows[bad[0]][1]), 'read_back': rows[bad[0]][2]}
+    if badb:
+        ck.tie_broken.append('correspondence binary blocks (Fmt/FgdBinEnt.v vs the shipped fgd.lzma)')
+
+
+def coq_N(xs: Iterable[int]) -> str:
+    return '[' + ';'.join(str(int(x)) for x in xs) + ']'
 
 
 # ----------------------------------------------------------------------------------------------- lazy database
@@ -1137,6 +1286,13 @@ def run(ck: Ck) -> None:
             'bit_literals_are_128_127': 'bit_literals_ok',
             'index_formats': 'index_formats_ok',
             'shared_strings_fit_u16': 'N.ltb shared_strings 65536',
+            'binary_tables_fit_the_record_model': 'bin_tables_ok',
+            'binary_header_formats': 'header_formats_ok',
+            'binary_layout_kv_serialise': 'layout_kv_writer_ok',
+            'binary_layout_kv_unserialise': 'layout_kv_reader_ok',
+            'binary_layout_iodef': 'layout_io_ok',
+            'binary_layout_ent_serialise': 'layout_ent_writer_ok',
+            'binary_layout_ent_unserialise': 'layout_ent_reader_ok',
             'lazy_bases_resolved_through_get_ent': 'lazy_via_get_ent',
             'lazy_block_marked_before_bases_loop': 'lazy_mark_before_resolve',
             'lazy_map_lookup_is_refuted': 'map_lookup_breaks',
@@ -1145,6 +1301,7 @@ def run(ck: Ck) -> None:
         corr_writer_reader(ck)
         corr_bits(ck)
         corr_strdict(ck)
+        corr_binary_records(ck, data, tb)
         corr_lazy(ck, data, tb, bool(side.get('engine_db', {}).get('lazy', {}).get('via_get_ent', True)))
         # informational: duplicates in the order lists (harmless, see c16_order_roundtrip)
         vo = side.get('engine_db', {}).get('vt_order', [])
@@ -1169,6 +1326,8 @@ def run(ck: Ck) -> None:
         ck.explain('instance:entflags_layout')
         ck.explain('correspondence:bit_packings')
         ck.explain('correspondence:BinStrDict')
+        ck.explain('correspondence:binary_')
+        ck.explain('instance:binary_')
     if any(k.startswith('lazy-') for k in keys):
         ck.explain('correspondence:lazy_db')
         ck.explain('instance:lazy_')
